@@ -36,6 +36,7 @@ class Module:
         normalise.aug_assign(self.tree)
         normalise.fstrings_to_format(self.tree)
         normalise.empty_displays(self.tree)
+        normalise.attr_builtins(self.tree)
         normalise.flatten_else(self.tree)
         normalise.merge_nested_ifs(self.tree)
         self.funcs = {}  # qualname -> FunctionDef
